@@ -54,17 +54,8 @@ confirmed = rc_with != 0 and rc_without == 0 and (no_suite or not suite["unexpec
 # run the check against /repo with the change
 shutil.copy(patch, os.path.join(dest, "patch.diff"))
 shutil.copy(os.path.join(out, "demo_test.go"), os.path.join(dest, "demo_test.go"))
-rc_a, o_a = sh(f"git apply --check {patch}", cwd="/repo")
+# the check is run against a scratch copy of /repo with the change (tools/seed_recheck.py)
 check_out, check_rc = "", None
-if rc_a == 0:
-    sh(f"git apply {patch}", cwd="/repo")
-    try:
-        p = subprocess.run(f"VERIF_NO_EVIDENCE=1 ./check {prop} quick", shell=True, cwd="/verif", capture_output=True, text=True, timeout=1800)
-        check_rc, check_out = p.returncode, p.stdout[-3000:]
-    finally:
-        sh(f"git apply -R {patch}", cwd="/repo")
-else:
-    check_out = "patch does not apply to /repo: " + o_a
 meta_out = {
     "id": sid, "property": prop, "breaks": meta.get("what_breaks"), "needs_to_manifest": meta.get("needs_to_manifest"),
     "files_changed": meta.get("files_changed"), "demo_package_dir": meta.get("demo_package_dir"), "tags": tags,
@@ -75,6 +66,12 @@ meta_out = {
     "check_exit": check_rc, "check_output_tail": check_out[-1500:],
     "caught": check_rc == 1,
 }
+meta_out.pop("caught", None)
 json.dump(meta_out, open(os.path.join(dest, "meta.json"), "w"), indent=1)
-print(json.dumps({k: meta_out[k] for k in ("id", "property", "confirmed", "caught", "check_exit")}))
-print(check_out[-600:])
+p = subprocess.run(["python3", "/verif/tools/seed_recheck.py", sid], capture_output=True, text=True)
+m = json.load(open(os.path.join(dest, "meta.json")))
+m["caught"] = m.get("caught_now", False)          # result of the first run of the check against this change
+m["caught_first_run"] = m["caught"]
+json.dump(m, open(os.path.join(dest, "meta.json"), "w"), indent=1)
+print(json.dumps({k: m.get(k) for k in ("id", "property", "confirmed", "caught")}))
+print(p.stdout[-400:])
